@@ -31,6 +31,18 @@ CLAIMED = {
         note="FakeConnection mirrors TcpConnection's threads; T7/T8 not modelled (absent in code and property alphabet); "
              "linktest timer silenced in these histories",
         design="5/C05"),
+    "C04": dict(
+        technique="TLA+ codec HsmsFrame (theorems over a boundary universe, vectors replayed on secsgem.hsms) + code-shaped "
+                  "framing model FrameStream checked by TLC + recorded segmentation runs of the real receive path validated "
+                  "by TLC (FrameJudge)",
+        text="E37 frame layout is an executable TLA+ definition; TLC proves round trip on ~12k boundary vectors which are "
+             "replayed byte-exact against HsmsMessage/HsmsBlock. Reassembly: TLC explores every partition of bounded streams "
+             "in the code-shaped framing model (safety + liveness); the real HsmsProtocol receive path is fed all partitions "
+             "with <= 3 segments, byte-wise and random partitions under fifo/random/PCT schedules and TLC validates the "
+             "deliveries recorded after every segment.",
+        note="frames with SType outside the E37 table and PType != 0 are outside the property; partitions of long streams are "
+             "sampled",
+        design="5/C04"),
 }
 
 NOT_YET = "check not built yet in this round (specification and harness in progress; see DESIGN.md section 9)"
